@@ -353,6 +353,19 @@ def blind_trace(tid, d: int, v: int, h: Sequence[int], sd: int) -> List[Dict[str
 
 
 def _trace_job(job):
+    # every 5th history with DEBUG logging switched on (as the command lines of
+    # server and client do): log statements are then evaluated and formatted
+    if sum(map(ord, str(job[1]))) % 5 == 1:
+        from .baton import log_debug_off, log_debug_on
+        state = log_debug_on()
+        try:
+            return _trace_job2(job)
+        finally:
+            log_debug_off(state)
+    return _trace_job2(job)
+
+
+def _trace_job2(job):
     kind, tid, d, v, h = job
     if kind == 'blind':
         return blind_trace(tid, d, v, h, seed())
